@@ -120,14 +120,14 @@ def main():
             ("comp", "hist_be", "one"), ("conn", "hist_be", "one"), ("alias", "hist_be", "one"), ("assembled", "hist_be", "one"),
             ("imp", "hist_be", "one")]
     if a.tier == "thorough":
-        plan += [("redecl", "hist", "base"), ("func", "hist", "base"), ("imp", "hist", "base"), ("imports", "hist", "base"),
-                 ("conn", "hist_cc", "base"), ("alias", "hist_cc", "base"), ("redecl", "hist_cc", "base"), ("imp", "hist_cc", "base"),
+        plan += [("redecl", "hist", "base"), ("func", "hist", "base"), ("imp", "hist", "base"),
+                 ("conn", "hist_cc", "base"), ("alias", "hist_cc", "base"), ("redecl", "hist_cc", "base"),
                  ("comp", "hist_w", "base"), ("conn", "hist_w", "base"), ("alias", "hist_w", "base"), ("assembled", "hist_w", "base"),
                  ("redecl", "hist_w", "base"), ("imports", "hist_w", "base"),
                  ("comp", "hist_cc_w", "base"), ("imp", "hist_cc_w", "base"), ("assembled", "hist_cc_w", "base"),
                  ("comp", "hist_x", "new"), ("conn", "hist_x", "new"), ("alias", "hist_x", "new"), ("imp", "hist_x", "new"),
                  ("assembled", "hist_cc_x", "new"),
-                 ("comp", "hist_be", "two"), ("imp", "hist_be", "two"),
+                 ("comp", "hist_be", "two"),
                  ("redecl", "hist_be", "one"), ("func", "hist_be", "one"),
                  ("comp", "hist_cc_be", "one"), ("imp", "hist_cc_be", "one"), ("assembled", "hist_cc_be", "one")]
     items, firsts = [], set()
@@ -143,7 +143,8 @@ def main():
             rep.harness_error(f"history enumeration for {lib}/{func}/{enum}: {len(tuples)} models, expected {expected}")
         # consecutive tuples share their first edit: the memoised oracle of a chunk is reused within it
         chunk = max(4 if func.endswith("_be") else 1, len(tuples) // (48 if len(tuples) > 3000 else 32))
-        firsts.add(len(items))
+        if func not in [items[i][1] for i in firsts]:
+            firsts.add(len(items))
         for i in range(0, len(tuples), chunk):
             items.append((lib, func, tuples[i:i + chunk]))
     rep.solver_time += time.time() - t0
@@ -152,7 +153,7 @@ def main():
     # longest items first: the pool hands items out one by one
     order = sorted(range(len(items)), key=lambda i: -len(items[i][2]) * (8 if items[i][1].endswith("_be") else 1))
     cols = dict(zip(order, run_parallel(work, [items[i] for i in order], a.jobs)))
-    for i in sorted(cols, key=lambda i: (i not in firsts, i)):  # the first item of every family first (evidence samples)
+    for i in sorted(cols, key=lambda i: (i not in firsts, i)):  # the first item of every function first (evidence samples)
         rep.merge(cols[i])
     cov = rep.coverage
     nh = cov.get("histories", 0)
